@@ -2,7 +2,7 @@ package openapi3
 
 // C06 kernel 1 — Content.Get: media-type lookup by the documented precedence.
 
-// verifRefContentGet: exact string, then without parameters, then type/*, then */*.
+// verifRefContentGet: exact string, then without parameters (white space trimmed; as written, then in lower case), then type/*, then */*.
 func verifRefContentGet(declared map[string]bool, mime string) string {
 	if mime == "" {
 		if declared["*/*"] {
@@ -20,6 +20,24 @@ func verifRefContentGet(declared map[string]bool, mime string) string {
 			break
 		}
 	}
+	// white space around the bare type is not part of it
+	for len(base) > 0 && base[0] == ' ' {
+		base = base[1:]
+	}
+	for len(base) > 0 && base[len(base)-1] == ' ' {
+		base = base[:len(base)-1]
+	}
+	if declared[base] {
+		return base
+	}
+	// type and subtype are case-insensitive: a spelling with capitals also selects the lower-case key
+	lower := []byte(base)
+	for i, c := range lower {
+		if c >= 'A' && c <= 'Z' {
+			lower[i] = c + 32
+		}
+	}
+	base = string(lower)
 	if declared[base] {
 		return base
 	}
@@ -42,7 +60,7 @@ func verifRefContentGet(declared map[string]bool, mime string) string {
 	return ""
 }
 
-func verifC06Get(maxLen int) {
+func verifC06Get(maxLen int, capitals bool) {
 	keys := []string{"a/b", "a/b;p", "a/*", "*/*", "b/b"}
 	declared := map[string]bool{}
 	content := Content{}
@@ -59,7 +77,7 @@ func verifC06Get(maxLen int) {
 	mime := verifNondetString("mime", maxLen)
 	for i := 0; i < len(mime); i++ {
 		c := mime[i]
-		verifAssume(c == 'a' || c == 'b' || c == '/' || c == '*' || c == ';' || c == 'p' || c == ' ')
+		verifAssume(c == 'a' || c == 'b' || c == '/' || c == '*' || c == ';' || c == 'p' || c == ' ' || capitals && (c == 'A' || c == 'B'))
 	}
 	got := content.Get(mime)
 	want := verifRefContentGet(declared, mime)
@@ -72,7 +90,13 @@ func verifC06Get(maxLen int) {
 }
 
 //verif:harness id=C06 tier=quick witness=end bounds="Content.Get: every subset of declared keys {a/b, a/b;p, a/*, */*, b/b} x every Content-Type of 0..4 bytes over {a,b,p,/,*,;,space}"
-func verifH_C06_content_get() { verifC06Get(4) }
+func verifH_C06_content_get() { verifC06Get(4, false) }
 
 //verif:harness id=C06 tier=thorough witness=end bounds="Content.Get as quick with Content-Type of 0..5 bytes" maxpaths=2000000
-func verifH_C06_content_get5() { verifC06Get(5) }
+func verifH_C06_content_get5() { verifC06Get(5, false) }
+
+//verif:harness id=C06 tier=quick witness=end bounds="Content.Get with capitals: every subset of declared keys {a/b, a/b;p, a/*, */*, b/b} x every Content-Type of 0..3 bytes over {a,b,A,B,p,/,*,;,space}: type and subtype are case-insensitive"
+func verifH_C06_content_get_capitals() { verifC06Get(3, true) }
+
+//verif:harness id=C06 tier=thorough witness=end bounds="Content.Get with capitals, Content-Type of 0..4 bytes" maxpaths=2000000
+func verifH_C06_content_get_capitals4() { verifC06Get(4, true) }
